@@ -48,6 +48,9 @@ def judge_sign(case, obs):
     rec = secp.recover(d, r, s, par)
     if rec != pub:
         v.bad("C05/%s/recovers-other-key" % cls, "recovery from (digest, r, s, yParity=%d) does not return the signer's key" % par)
+    if "address" in o["ok"] and (o["ok"]["address"] != eth.address_of_key(x) or o["ok"].get("pub65") != secp.ser_uncompressed(pub).hex()):
+        v.bad("C05/%s/signer-identity" % cls, "the signing key reports address %s / another public key than the one the signature recovers to (%s)" % (
+            o["ok"]["address"], eth.address_of_key(x)))
     if sig["text"] != eth.sig_text(r, s, par):
         v.bad("C05/%s/text" % cls, "text form %s differs from 0x r s v" % sig["text"])
     if z < N:
@@ -88,8 +91,18 @@ def gen(shard, rng, tier):
         for x in (1, 2, N - 1, N - 2, 0x4F3EDF983AC636A65A842CE7C78D9AA706D3B113BCE9C46F30D7D21715B23B1D):
             for z in special_d:
                 yield from case(x, z.to_bytes(32, "big"), "boundary")
+    pool_x, pool_d = [], []
     for i in range(shard["count"]):
         x = boundary_scalar(rng)
+        # pools: the same key with another digest and the same digest with another key inside one server process
+        if pool_x and rng.random() < 0.3:
+            x = rng.choice(pool_x)
+        else:
+            pool_x.append(x)
+            del pool_x[:-5]
+        if pool_d and rng.random() < 0.2:
+            yield from case(x, rng.choice(pool_d), "reused-digest", True)
+            continue
         r = rng.random()
         if r < 0.15:
             d = rng.choice(special_d).to_bytes(32, "big")
@@ -105,4 +118,6 @@ def gen(shard, rng, tier):
             yield from case(x, d, "sha", True)
         else:
             d = rand_bytes(rng, 32)
+            pool_d.append(d)
+            del pool_d[:-5]
             yield from case(x, d, "random", True)
